@@ -48,6 +48,10 @@ CLAIMED = {
             "Finite decision tables are extracted from the type-checked source (match arms with first-match semantics over the 4x4 variant product; all CFG paths x atom assignments of is_variable_usage_allowed) and every cell is compared with the specification functions; the recursive cell calls the same function on the item types, so structural induction extends the 16 cells to every nesting of list and non-null. obligations == discharged == cells.",
             "Trusted: rustc's HIR/MIR, the spec tables transcribed in analyzer/rules/C29.py, and that `==` on NamedType is name equality (C30.EQ). Fails closed if the functions stop being single matches / loop-free.",
             "decision-table extraction from HIR match arms + MIR path enumeration, exhaustive cell-by-cell comparison", False),
+    "C20": ("other",
+            "Shared rule driver (call-graph fact) plus, for every diagnostic construction site reachable from the standalone entry, a guard analysis: no site may fire on the `absent` edge of a schema-derived lookup without evidence that a schema is present, and every schema-dependent variant (frozen classification) must be under positive schema evidence - decided per site over dominating edges, for all documents at once.",
+            "The schema-(in)dependence classification of diagnostic variants and the enumerated guard idioms are the trusted tables; a new variant or idiom fails closed.",
+            "call-graph reachability + dominator edge-fact (GUARD) analysis with type-based schema-evidence over rustc MIR", False),
 }
 
 NOT_APPLICABLE = {
